@@ -2403,8 +2403,8 @@ class StridedInterval:
         if msb == [0]:
             # All positive numbers
             return self.zero_extend(new_length)
-        if msb == [1]:
-            # All negative numbers
+        if msb == [1] and self.lower_bound <= self.upper_bound:
+            # All negative numbers, in an interval that does not wrap around 2**bits
             si = self.copy()
             si._bits = new_length
             mask = (2**new_length - 1) - (2**self.bits - 1)
@@ -2413,7 +2413,15 @@ class StridedInterval:
 
         else:
             # Both positive numbers and negative numbers
-            nums = self._nsplit()
+            # split at the south pole first (_nsplit is only right for an interval that does not wrap around 2**bits);
+            # pieces that begin after their upper bound hold no member
+            nums = [
+                half
+                for piece in self._ssplit()
+                if piece.lower_bound <= piece.upper_bound
+                for half in piece._nsplit()
+                if half.lower_bound <= half.upper_bound
+            ]
             # Since there are both positive and negative numbers, there must be two bounds after nsplit
             # assert len(numbers) == 2
 
